@@ -255,6 +255,25 @@ def projectAxis (k m : Nat) (S : FS) : FS :=
 def projectOne (k m : Nat) (S : FS) : Option FS :=
   if k < S.ndim ∧ m + 1 ≤ S.shape.getD k 0 then some (projectAxis k m S) else none
 
+/-- the loop of `Spectrum.project`:
+    `for axis, proj in enumerate(ns): if proj != self.sample_sizes[axis]: output = output._project_one_axis(proj, axis)`;
+    `p` = current axis, second argument = extents of `self` from axis `p` on, third = requested sizes from axis `p` on -/
+def projFrom : Nat → List Nat → List Nat → FS → FS
+  | p, s :: ss, m :: ms, S => projFrom (p + 1) ss ms (if m + 1 = s then S else projectAxis p m S)
+  | _, _, _, S => S
+
+def projectCore (ms : List Nat) (S : FS) : FS := projFrom 0 S.shape ms S
+
+/-- `Spectrum.project(ns)`; `none` = ValueError (wrong number of sizes, or a size larger than the original);
+    a folded spectrum is unfolded, projected and folded again; the labels are kept -/
+def project (ms : List Nat) (S : FS) : Option FS :=
+  if ms.length ≠ S.ndim || (List.zipWith (fun m s => decide (s < m + 1)) ms S.shape).any id then none
+  else
+    let S0 := if S.folded then unfoldCore S else S
+    let out := projectCore ms S0
+    let out := { out with folded := false, labels := S.labels }
+    some (if S.folded then foldCore out else out)
+
 /-! ### Misc.combine_pops (older 2-D / 3-D routine), interpreted from the GENERATED dispatch table -/
 
 def sumAt (vars : Idx) (ks : List Nat) : Nat := (ks.map fun k => vars.getD k 0).sum
